@@ -58,6 +58,10 @@ SCHEMA = ("<schema><sectiontype name='s' datatype='zcverif_dt.fam.reenter_sect'>
 # a load with a command-line override that has nothing to do with the
 # definitions: the namespace rules are the same
 OVERRIDE = "with-override"
+# a loader whose top-level definitions table is a mapping that is not a
+# dict (the table is an argument of the parser and of includeConfiguration;
+# the namespace rules do not depend on its class)
+MAPTABLE = "mapping-table"
 DEF_NAMES = ["a", "A", "b"]
 USE_NAMES = ["a", "A", "b", "c", "{A}", "{b}"]
 VALUES = ["x", "y", "", "$b", "$a", "$$b", "${B}x", "  x "]
@@ -238,13 +242,85 @@ class Hook:
         self.bad = None
 
 
+class _Table:
+    """A mutable mapping that is neither a dict nor registered as one."""
+
+    def __init__(self):
+        self._d = []
+
+    def __len__(self):
+        return len(self._d)
+
+    def __contains__(self, k):
+        return any(k == a for a, _ in self._d)
+
+    def __getitem__(self, k):
+        for a, b in self._d:
+            if a == k:
+                return b
+        raise KeyError(k)
+
+    def __setitem__(self, k, v):
+        for i, (a, _) in enumerate(self._d):
+            if a == k:
+                self._d[i] = (k, v)
+                return
+        self._d.append((k, v))
+
+    def get(self, k, default=None):
+        try:
+            return self[k]
+        except KeyError:
+            return default
+
+    def __iter__(self):
+        return iter([a for a, _ in self._d])
+
+    def keys(self):
+        return [a for a, _ in self._d]
+
+    def items(self):
+        return list(self._d)
+
+
+_TABLE_NO = [0]
+
+
+def _table_loader(schema, res):
+    """A ConfigLoader that hands the top parser of a load a definitions
+    table of its own choosing; None when this tree's loader has no
+    _parse_resource to extend (the variant is skipped then)."""
+    import collections
+    from ZConfig.loader import ConfigLoader
+    if not hasattr(ConfigLoader, "_parse_resource"):
+        return None
+    kinds = [collections.UserDict, collections.ChainMap, _Table,
+             collections.OrderedDict]
+
+    class TableLoader(ConfigLoader):
+        def _parse_resource(self, matcher, resource, defines=None):
+            if defines is None:
+                _TABLE_NO[0] += 1
+                defines = kinds[_TABLE_NO[0] % len(kinds)]()
+                res.hook("mapping_tables")
+            return ConfigLoader._parse_resource(self, matcher, resource,
+                                                defines)
+    return TableLoader(schema)
+
+
 def observe(schema, path, hook, loader=None):
     """Load through ZConfig.loadConfig, or through a long-lived
     ConfigLoader object (*loader*) that is reused for every load."""
     import ZConfig
     hook.begin()
     try:
-        if loader is OVERRIDE:
+        if loader is MAPTABLE:
+            tl = _table_loader(schema, hook.res)
+            if tl is None:
+                cfg, _ = ZConfig.loadConfig(schema, path)
+            else:
+                cfg, _ = tl.loadURL(path)
+        elif loader is OVERRIDE:
             cfg, _ = ZConfig.loadConfig(schema, path, overrides=["o=1"])
         elif loader is not None:
             cfg, _ = loader.loadURL(path)
@@ -310,6 +386,7 @@ def signature(files, exp_out, defines):
 def run_case(ctx, schema, hook, steps_files, family, dirpath, loader=None):
     res = ctx.res
     via = OVERRIDE if loader is OVERRIDE else \
+        MAPTABLE if loader is MAPTABLE else \
         "loader-object" if loader is not None else "loadConfig"
     res.count("via_" + via)
     texts = render(steps_files)
@@ -427,6 +504,9 @@ def run_shard(ctx):
                             files, [(True, True), (True, False),
                                     (False, True)][ai // 3 % 3]),
                                  "enum-in-section", dirpath)
+                        if ai % 2 == 0:
+                            run_case(ctx, schema, hook, files,
+                                     "enum-mapping-table", dirpath, MAPTABLE)
         rng = ctx.rng("random")
         for i in range(RANDOM[ctx.tier] // ctx.nshards):
             files = random_case(rng)
@@ -438,6 +518,8 @@ def run_shard(ctx):
             if len(files) > 1:
                 run_case(ctx, schema, hook, in_sections(files),
                          "random-in-section", dirpath)
+                run_case(ctx, schema, hook, files, "random-mapping-table",
+                         dirpath, MAPTABLE)
     finally:
         hook.remove()
     ctx.res.info["bounds"] = {"steps": len(STEPS),
@@ -471,6 +553,8 @@ def replay(ctx, case):
         loader = None
         if case.get("via") == OVERRIDE:
             loader = OVERRIDE
+        elif case.get("via") == MAPTABLE:
+            loader = MAPTABLE
         elif case.get("via") == "loader-object":
             from ZConfig.loader import ConfigLoader
             loader = ConfigLoader(schema)
